@@ -348,6 +348,12 @@ def run(ctx):
                         R.formula(f'{src}2{dst}', good.rjust(total, '0'),
                                   OMIT, f'text-zero-padded-{total}')
                     R.library(f'{src}2{dst}', s11, OMIT, 'text-11-digits')
+                    # a line break or tab is no digit, wherever it stands
+                    for s_ws in (good + '\n', '\n' + good, good + '\r\n',
+                                 good + '\t', good[:2] + '\n' + good[2:],
+                                 good.rjust(10, '0') + '\n'):
+                        R.library(f'{src}2{dst}', s_ws, OMIT,
+                                  'text-control-character')
                     R.library(f'{src}2{dst}', '1.5', OMIT, 'text-fraction')
                     R.library(f'{src}2{dst}', 1.5, OMIT, 'float-fraction')
                     for nearly in (101.0000000001, 10.99999999999, 1e-10,
